@@ -32,6 +32,8 @@ let dispatch kind fields =
   | "VISO" -> K_viso.run_viso fields
   | "ENC" -> K_enc.run_enc fields
   | "NOMODEL" -> "NOMODEL"
+  | "LISTEN" -> K_listen.run_listen fields
+  | "TIMED" -> K_timed.run_timed fields
   | _ -> failwith ("unknown kind " ^ kind)
 
 let () =
